@@ -147,11 +147,15 @@ def coq_desc(desc):
 
 
 def generate():
-    consts = timestamp_consts()
-    text = vf.gen_header([TS_SRC]) + 'From Coq Require Import ZArith.\nOpen Scope Z_scope.\n'
-    for k in ('ts_invalid', 'ts_dec_factor_bits', 'ts_enc_factor_bits', 'ts_carry_at'):
-        text += 'Definition %s : Z := %d.\n' % (k, consts[k])
-    vf.write_if_changed(os.path.join(vf.THEORIES, 'Generated', 'CodecConsts.v'), text)
+    ts_error, consts = None, None
+    try:
+        consts = timestamp_consts()
+        text = vf.gen_header([TS_SRC]) + 'From Coq Require Import ZArith.\nOpen Scope Z_scope.\n'
+        for k in ('ts_invalid', 'ts_dec_factor_bits', 'ts_enc_factor_bits', 'ts_carry_at'):
+            text += 'Definition %s : Z := %d.\n' % (k, consts[k])
+        vf.write_if_changed(os.path.join(vf.THEORIES, 'Generated', 'CodecConsts.v'), text)
+    except RuntimeError as e:
+        ts_error = e        # raised at the end, after the descriptions (which do not depend on it) have been written
 
     descs = run_describe()
     keys = [k for k in descs if 'inexpressible' not in descs[k]]
@@ -171,6 +175,8 @@ def generate():
     out = {'consts': consts, 'descriptions': {k: descs[k] for k in keys}, 'inexpressible': inexp}
     os.makedirs(os.path.join(vf.BUILD, 'c01'), exist_ok=True)
     vf.write_if_changed(os.path.join(vf.BUILD, 'c01', 'descriptions.json'), json.dumps(out))
+    if ts_error is not None:
+        raise ts_error
     return out
 
 
